@@ -48,7 +48,7 @@ def gen(rng, n, tier):
     for i in range(max(1, n // 8)):
         c = M.gen_lb(rng, tier, rollover=0.5 if tier == 'search' else 0.3)
         out.append(dict(kind='lbdy', content=c, write=True, reread=True))
-    # one-cell-wide grids (nx or ny = 1) on the writer path, judged in Python (known finding region 18)
+    # one-cell-wide grids (nx or ny = 1) on the writer path: inside lb_wf, evaluated in Coq like the others
     for i in range(max(1, n // 30)):
         c = M.gen_lb_thin(rng, tier)
         out.append(dict(kind='lbdy-thin', content=c, write=True, reread=True))
@@ -109,8 +109,6 @@ def coq_term(case, obs):
     if 'raises' in obs:
         return None
     c = case['content']
-    if MC.is_lb(case) and MC.lb_thin(c):
-        return None      # python-judged: the malformed edge record of the writer is outside Model/Lbdy.v's lb_wf
     if MC.is_lb(case):
         w1, mm, w2 = obs.get('w1') or {}, obs.get('mm') or {}, obs.get('w2') or {}
         ok = mm.get('status') == 'ok'
@@ -133,10 +131,6 @@ def py_check(case, obs):
     if 'raises' in obs:
         return dict(s_ok=False, why='in-domain write/read raised: %s %s' % (obs.get('raises'), obs.get('msg', '')[:120]),
                     region=MC.region_of(case['content']) if (case['kind'].startswith('met-') and not MC.is_lb(case)) else 0)
-    if MC.is_lb(case) and MC.lb_thin(case['content']):
-        why = MC.lb_thin_check(case, obs)
-        reg = 1 if MC._year_end_23(case['content']) else 18
-        return dict(s_ok=not why, region=reg, why='; '.join(why[:3]))
     if MC.is_lb(case):
         why = MC.lb_py_check(case, obs)
         for k, what in (('w1', 'library writer on the in-memory file'), ('mm', 'library reader on the written file'),
